@@ -14,6 +14,7 @@ import (
 
 var globalCS *ContractSet
 var boundedGlobal []map[string]any
+var findingReplaysGlobal []map[string]any
 
 type Options struct {
 	Property string
@@ -212,6 +213,7 @@ func RunCheck(opt Options) int {
 	os.MkdirAll(replayDir, 0755)
 	discharged := 0
 	knownPrinted := map[string]bool{}
+	var findingReplays []map[string]any
 	for _, name := range order {
 		r := byObl[name]
 		if r.Result == "discharged" {
@@ -234,6 +236,13 @@ func RunCheck(opt Options) int {
 			knownPrinted[kf.Obligation] = true
 			r.Result = "known-finding"
 			fmt.Printf("KNOWN-FINDING: property=%s %s\n", opt.Property, kf.Text)
+			if pkgRel, test, ok := strings.Cut(kf.Replay, ":"); ok && opt.Tier == "thorough" { // the finding is shown again on the real code
+				hr := runHarness(opt, pkgRel, test, map[string]string{}, 120*time.Second)
+				findingReplays = append(findingReplays, map[string]any{"obligation": kf.Obligation, "test": kf.Replay, "status": hr.Status, "text": hr.Text})
+				if hr.Status != "confirmed" {
+					fmt.Printf("NOTE property=%s the listed finding %s did not reproduce on the real code (%s): it may have been repaired; update known_findings.json\n", opt.Property, kf.Obligation, hr.Status)
+				}
+			}
 		}
 	}
 	for _, u := range undecided {
@@ -269,6 +278,7 @@ func RunCheck(opt Options) int {
 		}
 	}
 	boundedGlobal = bounded
+	findingReplaysGlobal = findingReplays
 	for _, l := range out {
 		fmt.Println(l)
 	}
@@ -577,6 +587,7 @@ func writeEvidence(opt Options, units []*UnitResult, order []string, byObl map[s
 			"vcgen_seconds":            tGen,
 			"undecided":                undecided,
 			"bounded_standins":         boundedGlobal,
+			"known_finding_replays":    findingReplaysGlobal,
 			"vacuity_failures":         vac,
 			"samples":                  samples,
 		},
